@@ -38,7 +38,7 @@ def env():
 
 
 class Harness:
-    def __init__(self, name, desc, weight=1.0, cap_s=None, covers=None, stubs="none", unwind=None):
+    def __init__(self, name, desc, weight=1.0, cap_s=None, covers=None, stubs="none", unwind=None, unwindset=None):
         self.name = name          # function name inside module `gen`
         self.desc = desc          # dict written to the evidence (what it quantifies over)
         self.weight = weight      # relative cost estimate (for sharding)
@@ -46,6 +46,7 @@ class Harness:
         self.covers = covers      # expected number of satisfied covers (None: all listed)
         self.stubs = stubs
         self.unwind = unwind
+        self.unwindset = unwindset  # [(regex on cbmc loop names, bound)] loops that need more than the global bound
 
 
 class Result:
@@ -140,22 +141,16 @@ def build_template(workdir, tables_rs, log):
     return rc, tgt
 
 
-def discover_table_loops(tgt):
-    names = set()
-    seen_types = set()
+def discover_loops(tgt, patterns):
+    """patterns: list of (compiled regex, bound).  Links every harness binary like kani-driver
+    does, lists its loops and returns {loop name: bound} for the loops that match."""
+    found = {}
+    kl = os.path.join(kani_home(), "library", "kani", "kani_lib.c")
     for root, _, files in os.walk(tgt):
         for f in files:
             if not f.endswith(".symtab.out"):
                 continue
-            # one binary per arithmetic type mentioned in the harness name is enough
-            m = re.search(r"(Minstarapproxi8|Aminstari8)[A-Za-z0-9]*", f)
-            key = m.group(0).split("_")[0] if m else None
-            if key is None or key in seen_types:
-                continue
-            seen_types.add(key)
-            # link with Kani's C library first (as kani-driver does), otherwise cbmc rejects the binary
             linked = os.path.join(root, f[:-len(".symtab.out")] + ".showloops.tmp")
-            kl = os.path.join(kani_home(), "library", "kani", "kani_lib.c")
             subprocess.run(["goto-cc", os.path.join(root, f), kl, "-o", linked], capture_output=True, text=True)
             out = subprocess.run(["cbmc", "--show-loops", linked], capture_output=True, text=True).stdout
             try:
@@ -163,9 +158,27 @@ def discover_table_loops(tgt):
             except OSError:
                 pass
             for line in out.splitlines():
-                if line.startswith("Loop ") and TABLE_LOOP_RE.search(line):
-                    names.add(line[5:].rstrip(":"))
-    return sorted(names)
+                if not line.startswith("Loop "):
+                    continue
+                nm = line[5:].rstrip(":")
+                for rx, bound in patterns:
+                    if rx.search(nm):
+                        found[nm] = max(found.get(nm, 0), bound)
+    return found
+
+
+def loop_patterns(harnesses):
+    pats = [(TABLE_LOOP_RE, TABLE_LOOP_UNWIND)]
+    for h in harnesses:
+        for rx, bound in (h.unwindset or []):
+            pats.append((re.compile(rx), bound))
+    return pats
+
+
+def unwindset_args(found):
+    if not found:
+        return []
+    return ["--unwindset", ",".join("%s:%d" % (l, b) for l, b in sorted(found.items()))]
 
 
 # ------------------------------------------------------------------------------------
@@ -251,10 +264,7 @@ def run_shard(idx, workdir, template_tgt, prelude, items, tables_rs, harness_tim
         for r in results.values():
             r.status, r.reason = "inconclusive", "harness crate failed to compile (see %s)" % log
         return results
-    loops = discover_table_loops(tgt)
-    cbmc_args = list(CBMC_BASE)
-    if loops:
-        cbmc_args += ["--unwindset", ",".join("%s:%d" % (l, TABLE_LOOP_UNWIND) for l in loops)]
+    cbmc_args = list(CBMC_BASE) + unwindset_args(discover_loops(tgt, loop_patterns([h for h, _ in items])))
     hs = []
     for h, _ in items:
         hs += ["--harness", "gen::" + h.name]
@@ -308,3 +318,23 @@ def run_all(prop, tier, prelude, items, tables_rs, nshards=14, harness_timeout=3
     for pid, rss in wd.killed:
         sys.stderr.write("watchdog: killed cbmc pid %d at %d MB\n" % (pid, rss // 1024))
     return results, workdir, None
+
+
+def native_stub_validation():
+    """Runs the harness crate's native tests (real libm): TABLE constants and every CONTRACT
+    fact on a grid.  Returns a dict for the evidence; 'ok' False makes the check inconclusive."""
+    from . import tables
+    d = os.path.join(WORK, "native-stubtest")
+    crate = os.path.join(d, "crate")
+    tgt = os.path.join(d, "target")
+    os.makedirs(d, exist_ok=True)
+    write_crate(crate, "// empty\n", tables.render()[0])
+    log = os.path.join(d, "test.log")
+    open(log, "w").close()
+    rc = run_cmd(["cargo", "test", "--offline", "--lib", "--target-dir", tgt], crate, log, timeout=1200)
+    text = open(log, errors="replace").read()
+    m = re.search(r"test result: (\w+)\. (\d+) passed; (\d+) failed", text)
+    ok = rc == 0 and m is not None and m.group(1) == "ok" and int(m.group(2)) >= 2
+    return {"cmd": "cargo test --lib (harness crate, native, real libm)", "ok": ok,
+            "passed": int(m.group(2)) if m else 0, "failed": int(m.group(3)) if m else -1,
+            "what": "TABLE constants == native exp/ln_1p on the 128 table arguments; every CONTRACT interval fact on a dense grid for f64 and f32"}
